@@ -309,7 +309,9 @@ void TCP::write_serialization(uint8_t* buffer, uint32_t total_sz) {
     const uint32_t total_options_size = pad_options_size(options_size);
     // Set checksum to 0, we'll calculate it at the end
     checksum(0);
-    header_.doff = (sizeof(tcp_header) + total_options_size) / sizeof(uint32_t);
+    // More than 40 bytes of options can't be represented: refuse them (small_uint
+    // throws) rather than writing a wrapped data offset
+    data_offset(small_uint<4>((sizeof(tcp_header) + total_options_size) / sizeof(uint32_t)));
     stream.write(header_);
     for (options_type::const_iterator it = options_.begin(); it != options_.end(); ++it) {
         write_option(*it, stream);
